@@ -28,13 +28,18 @@ def rewrite_lines(
     """Replace occurances of patterns in old_lines with new_vinfo."""
     found_patterns: typ.Set[Pattern] = set()
 
-    new_lines = old_lines[:]
+    replacements: typ.List[typ.Tuple[int, typ.Tuple[int, int], str]] = []
     for match in parse.iter_matches(old_lines, patterns):
         found_patterns.add(match.pattern)
         replacement = v1version.format_version(new_vinfo, match.pattern.raw_pattern)
-        span_l, span_r = match.span
-        new_line = match.line[:span_l] + replacement + match.line[span_r:]
-        new_lines[match.lineno] = new_line
+        replacements.append((match.lineno, match.span, replacement))
+
+    # There may be multiple (non overlapping) matches on the same line.
+    # They are applied right to left, so spans of the old line stay valid.
+    new_lines = old_lines[:]
+    for lineno, (span_l, span_r), replacement in sorted(replacements, reverse=True):
+        cur_line = new_lines[lineno]
+        new_lines[lineno] = cur_line[:span_l] + replacement + cur_line[span_r:]
 
     non_matched_patterns = set(patterns) - found_patterns
     if non_matched_patterns:
